@@ -177,6 +177,71 @@ def do_unary_12d(d, c, sc, st, nz, ex, vals):
             st.call(nz, {"op": "update", "state": ex, "assign": [list(map(int, cl)) + [v] for cl, v in zip(cells, asg) if v is not None]})
 
 
+def check_slices1d(x, d, c, ex):
+    """slices1d of the index object `x`, whose current dense view is `d` and common value `c`."""
+    s0 = snap(x)
+    ok, sl = _try(lambda: list(x.slices1d()))
+    if not ok:
+        return
+    want = list(itertools.product(*[range(e) for e in d.shape[1:]]))
+    MON.check("iindexes.iindex.slices1d/ensures-view-coords-each-exactly-once", sorted(co for co, _ in sl) == want,
+              lambda: "coordinates %r, expected %r" % ([co for co, _ in sl], want), ex)
+    for co, s in sl:
+        if tuple(co) not in set(want):
+            continue  # a phantom coordinate: already reported by the coordinates clause above
+        w = wf(s)
+        MON.check("iindexes.iindex.slices1d/ensures-wf-of-slice", not w, lambda: "slice %r not well-formed: %r" % (co, w), ex)
+        okv = (not w) and s.shape == (d.shape[0],) and np.array_equal(view(s), d[(slice(None),) + tuple(co)]) and s.common == c
+        MON.check("iindexes.iindex.slices1d/ensures-view-of-slice", bool(okv),
+                  lambda: "slice %r has view %r, expected %r" % (co, view(s).tolist() if not w else None, d[(slice(None),) + tuple(co)].tolist()), ex)
+    MON.check("iindexes.iindex.slices1d/frame-self-unchanged", snap(x) == s0, "receiver changed", ex)
+
+
+def do_observer_history(d, c, st, nz, ex, vals):
+    """Slice iteration is an observer: on ONE index object it must describe the current content after every mutating
+    operation of the library (whole entries removed and re-added, cells reassigned, common value shifted, rows appended) -
+    anything the object remembers between calls has to follow.  The operations are judged by their own contracts; here
+    `slices1d` is judged against the object's current view after each of them."""
+    if d.ndim < 2 or d.shape[0] == 0 or d.size > 24:
+        return
+    x = mk(d, c)
+    if wf(x) or len(x) == 0:
+        return
+    steps = []
+
+    def observe(step):
+        steps.append(step)
+        w = wf(x)
+        if w:
+            return  # the operation's own contract reports it
+        check_slices1d(x, view(x), x.common, dict(ex, history=list(steps)))
+
+    observe("slices1d")
+    k0 = sorted(x.keys())[0]
+    whole = mk(d, c)
+    only = {k0: np.array(x[k0], dtype=U32)}
+    other = type(x)(only, x.common, x.shape)
+    _try(lambda: x.difference_update(other))  # removes one whole entry (set_if drops the emptied key)
+    observe("difference_update(one whole entry)")
+    _try(lambda: x.union_update(other))
+    observe("union_update(that entry)")
+    _try(lambda: x.set_if(k0, None))
+    observe("set_if(key, None)")
+    _try(lambda: x.update(only))
+    observe("update(that entry)")
+    keep = type(x)({k: np.array(v, dtype=U32) for k, v in list(whole.items())[1:]}, x.common, x.shape)
+    _try(lambda: x.intersection_update(keep))
+    observe("intersection_update(all but the first entry)")
+    if d.ndim == 2:
+        for v in [v for v in vals if v != x.common][:1]:
+            _try(lambda: x.shift_common(v))
+            observe("shift_common(%r)" % (v,))
+    y = mk(d, c)
+    _try(lambda: x.append(y))
+    observe("append(original)")
+    st.call(nz, {"op": "observer-history", "state": ex})
+
+
 def do_unary_slicing(d, c, sc, st, nz, ex, vals):
     # 2-D / 3-D: sliced, slices1d ; 2-D: collapsed
     x = mk(d, c)
@@ -193,21 +258,8 @@ def do_unary_slicing(d, c, sc, st, nz, ex, vals):
             _try(lambda: x.sliced(*orders))
             st.call(nz, {"op": "sliced", "state": ex, "orders": [o for o in orders]})
         x = mk(d, c)
-        s0 = snap(x)
-        ok, sl = _try(lambda: list(x.slices1d()))
-        if ok:
-            want = list(itertools.product(*[range(e) for e in d.shape[1:]]))
-            MON.check("iindexes.iindex.slices1d/ensures-view-coords-each-exactly-once", sorted(co for co, _ in sl) == want,
-                      lambda: "coordinates %r, expected %r" % ([co for co, _ in sl], want), ex)
-            for co, s in sl:
-                if tuple(co) not in set(want):
-                    continue  # a phantom coordinate: already reported by the coordinates clause above
-                w = wf(s)
-                MON.check("iindexes.iindex.slices1d/ensures-wf-of-slice", not w, lambda: "slice %r not well-formed: %r" % (co, w), ex)
-                okv = (not w) and s.shape == (d.shape[0],) and np.array_equal(view(s), d[(slice(None),) + tuple(co)]) and s.common == c
-                MON.check("iindexes.iindex.slices1d/ensures-view-of-slice", bool(okv),
-                          lambda: "slice %r has view %r, expected %r" % (co, view(s).tolist() if not w else None, d[(slice(None),) + tuple(co)].tolist()), ex)
-            MON.check("iindexes.iindex.slices1d/frame-self-unchanged", snap(x) == s0, "receiver changed", ex)
+        check_slices1d(x, d, c, ex)
+        do_observer_history(d, c, st, nz, ex, vals)
         st.call(nz)
     if d.ndim == 2:
         pool = vals + [9, -1]
